@@ -21,8 +21,6 @@ from vlib import tables
 from gen import host as H
 
 MODULES = ["HmsProofs.C10"]
-if os.environ.get("VERIF_DRV"):      # development only: a scratch driver while the shared one is being rebuilt
-    core.DRV = os.environ["VERIF_DRV"]
 
 # witness of the open finding V29 (NewVM panics when @init is interrupted)
 V29_SRC = "fn main() { }\n"
